@@ -1,6 +1,6 @@
 """term.py — R-TERM: recursion SCCs and natural loops of a scope must carry a termination witness."""
 import re
-from mir import op_place, op_const, const_int
+from mir import op_place, op_const, const_int, AnchorLost
 from collections import defaultdict
 import lib
 import guard
@@ -216,27 +216,37 @@ def check_visited_set(F, b, scc_members, ctx_desc=""):
     return True, "insert dominates %d recursive call(s); contains precedes insert" % len(rec)
 
 
-def check_counter(F, b, callee_suffix, param_name):
-    """the call to `callee_suffix` passes `param - k` (k >= 1) and is dominated by `param == 0` being false."""
-    env = guard.Env(b)
+def check_counter(F, b, callee_suffix, param_name, also=()):
+    """every call to `callee_suffix` (in b, or — when the code was reshaped — in any other member of the cycle) passes
+    `param - k` (k >= 1) in one of its arguments and is dominated by `param == 0` being false."""
     hits = 0
-    for c in b.calls:
+    for bb_ in [b] + [x for x in also if x is not b]:
+      env = guard.Env(bb_)
+      for c in bb_.calls:
         if not (c.local and (c.cname.endswith(callee_suffix))):
             continue
         hits += 1
         pos = (c.bb, 10**6)
-        arg = env.op_term(c.args[0], pos)
-        # captured or direct parameter
-        pn = param_name
-        for nm, pl in b.upvars:
-            if nm == param_name:
-                pn = env.place_term(pl, pos).base
-        if arg.base is None or (pn not in arg.base and param_name not in arg.base) or arg.off >= 0:
-            return False, "argument of %s is %r, not %s - k" % (callee_suffix, arg, param_name)
-        base = guard.Term(arg.base, 0, arg.reads, arg.ty)
-        S, used, ok = guard.knowledge(env, c.bb, 10**6, [arg, base])
-        if not (ok(base) and S.lower(base) >= 1):
-            return False, "call at line %d is not dominated by %s != 0" % (c.ln, param_name)
+        why = None
+        for a_ in c.args:
+            arg = env.op_term(a_, pos)
+            # captured or direct parameter
+            pn = param_name
+            for nm, pl in bb_.upvars:
+                if nm == param_name:
+                    pn = env.place_term(pl, pos).base
+            if arg.base is None or (pn not in arg.base and param_name not in arg.base) or arg.off >= 0:
+                why = why or "argument of %s is %r, not %s - k" % (callee_suffix, arg, param_name)
+                continue
+            base = guard.Term(arg.base, 0, arg.reads, arg.ty)
+            S, used, ok = guard.knowledge(env, c.bb, 10**6, [arg, base])
+            if not (ok(base) and S.lower(base) >= 1):
+                why = "call at line %d is not dominated by %s != 0" % (c.ln, param_name)
+                continue
+            why = None
+            break
+        if why is not None:
+            return False, why
     if hits == 0:
         return False, "no call to %s" % callee_suffix
     return True, "%d call(s) pass %s - k under %s >= 1" % (hits, param_name, param_name)
@@ -760,8 +770,11 @@ def check_termination(ctx, F, scope, loops_table, rec_table, rule="R-TERM"):
             b = F.fn(r["in"])
             ok, how = check_visited_set(F, b, set(comp))
         elif w == "counter":
-            b = F.fn(r["in"])
-            ok, how = check_counter(F, b, r["callee"], r["param"])
+            try:
+                b = F.fn(r["in"])
+            except AnchorLost:
+                b = F.bodies[sorted(comp)[0]]      # the named member is gone: every member of the cycle is examined anyway
+            ok, how = check_counter(F, b, r["callee"], r["param"], also=[F.bodies[x] for x in sorted(comp)])
             lim = F.consts.get(r.get("start_const", ""))
             if ok and r.get("start_const"):
                 if lim is None or "int" not in lim or int(lim["int"]) > r.get("max_start", 1000):
